@@ -77,6 +77,21 @@ func BuildTree(W string, nodes []TNode) error {
 			if body == "<SELF>" {
 				body = n.Path
 			}
+			if strings.HasPrefix(body, "<NOISE:") {
+				// incompressible deterministic content, so that the gzip layer hands
+				// output to the writer while the file is still being read
+				var k int
+				fmt.Sscanf(body, "<NOISE:%d>", &k)
+				b := make([]byte, k)
+				x := uint32(2463534242)
+				for i := range b {
+					x ^= x << 13
+					x ^= x >> 17
+					x ^= x << 5
+					b[i] = 33 + byte(x>>11)%94 // printable: results travel as JSON strings
+				}
+				body = string(b)
+			}
 			if err := os.WriteFile(p, []byte(body), 0644); err != nil {
 				return err
 			}
@@ -163,9 +178,16 @@ type PackArg struct {
 	FailAt    int  `json:"fail_at,omitempty"` // 0 = none; N>0: the writer fails once N-1 bytes were accepted
 	ShortFail bool `json:"short_fail,omitempty"`
 	NoTrees   bool `json:"no_trees,omitempty"`
+	// the tree changes while Pack runs (C20): when the writer is called for the
+	// TouchAt-th time, the file TouchPath (W-relative) is truncated/extended to TouchSize
+	TouchAt   int    `json:"touch_at,omitempty"`
+	TouchPath string `json:"touch_path,omitempty"`
+	TouchSize int64  `json:"touch_size,omitempty"`
 }
 
 type PackOut struct {
+	Touched     bool                `json:"touched,omitempty"`
+	WriteCalls  int                 `json:"write_calls,omitempty"`
 	SetupErr    string              `json:"setup_err,omitempty"`
 	Err         string              `json:"err,omitempty"`
 	Illegal     bool                `json:"illegal,omitempty"`
@@ -188,6 +210,8 @@ type PackOut struct {
 }
 
 type faultWriter struct {
+	calls   int
+	onCall  func(n int)
 	buf    bytes.Buffer
 	failAt int
 	short  bool
@@ -197,6 +221,10 @@ type faultWriter struct {
 var errInjectedWrite = errors.New("injected write fault")
 
 func (f *faultWriter) Write(p []byte) (int, error) {
+	f.calls++
+	if f.onCall != nil {
+		f.onCall(f.calls)
+	}
 	if f.failAt > 0 {
 		room := f.failAt - 1 - f.buf.Len()
 		if room < len(p) {
@@ -270,6 +298,16 @@ func runPack(arg PackArg) (out PackOut) {
 	}
 	before := fsx.Snapshot(W)
 	fw := &faultWriter{failAt: arg.FailAt, short: arg.ShortFail}
+	if arg.TouchAt > 0 {
+		fw.onCall = func(n int) {
+			if n == arg.TouchAt {
+				if err := os.Truncate(filepath.Join(W, arg.TouchPath), arg.TouchSize); err != nil {
+					panic("INTERNAL truncate: " + err.Error())
+				}
+				out.Touched = true
+			}
+		}
+	}
 	var meta *slug.Meta
 	var err error
 	func() {
@@ -296,6 +334,7 @@ func runPack(arg PackArg) (out PackOut) {
 		}
 	}()
 	out.WriterErred = fw.erred
+	out.WriteCalls = fw.calls
 	out.Written = fw.buf.Len()
 	if !arg.NoTrees {
 		out.SourceDiff = fsx.Diff(before, fsx.Snapshot(W))
